@@ -956,6 +956,82 @@ fn draw_write_fault(rng: &mut Rng) -> WriteFault {
 
 /// Generates and executes one run (generation sees the disk so that fault
 /// positions land inside written data), recording the materialised script.
+// ---------------------------------------------------------------------------
+// Thread-exit probe: a run that executes on a thread of its own registers, BEFORE the
+// thread touches the crate, a thread-local of the harness whose destructor round-trips
+// one value of every type (a per-thread batch flushed at thread exit does that). It is
+// destroyed after whatever per-thread state the crate itself keeps.
+// ---------------------------------------------------------------------------
+
+static EXIT_PROBE_FAILURE: std::sync::Mutex<Option<String>> = std::sync::Mutex::new(None);
+
+struct ExitProbe;
+
+impl Drop for ExitProbe {
+    fn drop(&mut self) {
+        let r = std::panic::catch_unwind(|| -> Result<(), String> {
+            use sqldatetime::{Date, IntervalDT, IntervalYM, OracleDate, Time, Timestamp};
+            macro_rules! rt {
+                ($t:ty, $v:expr) => {{
+                    let v: $t = $v.map_err(|_| "probe value".to_string())?;
+                    let s = serde_json::to_string(&v).map_err(|e| format!("serializing a {} as JSON failed: {}", stringify!($t), e))?;
+                    let back: $t = serde_json::from_str(&s).map_err(|e| format!("{} {} does not decode: {}", stringify!($t), s, e))?;
+                    if back != v {
+                        return Err(format!("{} {} decodes to another value", stringify!($t), s));
+                    }
+                    let b = bincode::serialize(&v).map_err(|e| format!("serializing a {} with bincode failed: {}", stringify!($t), e))?;
+                    let back: $t = bincode::deserialize(&b).map_err(|e| format!("{} {:02x?} does not decode: {}", stringify!($t), b, e))?;
+                    if back != v {
+                        return Err(format!("{} {:02x?} decodes to another value", stringify!($t), b));
+                    }
+                }};
+            }
+            rt!(Date, Date::try_from_ymd(2024, 2, 29));
+            rt!(Timestamp, Timestamp::try_from_usecs(1_709_212_455_123_456));
+            rt!(Time, Time::try_from_usecs(47_655_123_456));
+            rt!(IntervalYM, IntervalYM::try_from_months(-147));
+            rt!(IntervalDT, IntervalDT::try_from_usecs(-1_343_655_123_456));
+            rt!(OracleDate, OracleDate::try_from_usecs(1_709_212_455_000_000));
+            Ok(())
+        });
+        let failure = match r {
+            Ok(Ok(())) => None,
+            Ok(Err(e)) => Some(e),
+            Err(_) => Some("panic".to_string()),
+        };
+        if let (Some(f), Ok(mut g)) = (failure, EXIT_PROBE_FAILURE.lock()) {
+            *g = Some(f);
+        }
+    }
+}
+
+thread_local! {
+    static EXIT_PROBE: ExitProbe = const { ExitProbe };
+}
+
+/// Runs `f` on a thread of its own with the exit probe registered first; returns f's result
+/// and what the probe found when the thread ended.
+fn on_fresh_thread<R: Send>(f: impl FnOnce() -> R + Send) -> (R, Option<Violation>) {
+    if let Ok(mut g) = EXIT_PROBE_FAILURE.lock() {
+        *g = None;
+    }
+    let r = std::thread::scope(|s| {
+        s.spawn(|| {
+            EXIT_PROBE.with(|_| {});
+            f()
+        })
+        .join()
+        .expect("harness thread")
+    });
+    let failure = EXIT_PROBE_FAILURE.lock().ok().and_then(|mut g| g.take());
+    let v = failure.map(|f| Violation {
+        class: "roundtrip",
+        sig: "thread_exit_roundtrip".to_string(),
+        detail: format!("after this run, at thread exit (from a thread-local destructor registered before the thread first used the crate, no fault injected): {}", f),
+    });
+    (r, v)
+}
+
 fn simulate_run(seed: u64, run: u64, fault_free: bool, stats: &mut Stats) -> (Script, Option<Violation>) {
     let mut rng = Rng::for_run(seed, if fault_free { tag("C15-clean") } else { tag("C15-fault") }, run);
     let mut w = World {
@@ -1450,7 +1526,9 @@ fn replay(path: &str, expect_class: Option<&str>) -> i32 {
     // the environment of the worker process that found it
     simcore::envswarm::install_from_json(&v["script"]["env"]);
     let mut st = Stats::default();
-    let (viol, hash) = run_script(&script, &mut st);
+    // on a thread of its own, with the thread-exit probe, as one run in 32 is executed
+    let ((viol, hash), at_exit) = on_fresh_thread(|| run_script(&script, &mut st));
+    let viol = viol.or(at_exit.map(|v| (script.ops.len(), v)));
     println!("replay {}: {} ops, log hash {:016x}", path, script.ops.len(), hash);
     match viol {
         Some((_, v)) if expect_class.map(|c| c != v.class).unwrap_or(false) => {
@@ -1622,7 +1700,8 @@ fn main() {
                     // library state is then in its first-use condition
                     let outcome = if idx % 32 == 5 {
                         acc.probe("run_on_a_fresh_thread");
-                        std::thread::scope(|s| s.spawn(|| simulate_run(seed, idx, ff, &mut acc)).join().expect("harness thread"))
+                        let ((sc, v), at_exit) = on_fresh_thread(|| simulate_run(seed, idx, ff, &mut acc));
+                        (sc, v.or(at_exit))
                     } else {
                         simulate_run(seed, idx, ff, &mut acc)
                     };
@@ -1835,6 +1914,7 @@ fn main() {
             "outcomes": outcomes,
             "probes": total.probes,
             "max_human_readable_length_seen": total.max_text_len,
+            "environment_swarm": simcore::envswarm::evidence(seed, workers as u64),
             "interleavings": match &miri_res {
                 Some(m) => json!({"engine": "Miri seeded scheduler over real std::thread + once_cell + parking_lot", "scheduler_seeds_run": m.seeds_run, "preemption_rates": rates, "wall_s": m.wall_s, "skipped": m.skipped}),
                 None => json!({"skipped": "--no-miri or earlier violation"}),
